@@ -1,10 +1,501 @@
-//! C05 — (stub; filled in during the build phase)
+//! C05 — illegal cycles are always diagnosed; acyclic definitions never are.
+//! All containment graphs on <= 4 nodes (every struct/enum kind assignment, every wrapper routing), all alias
+//! graphs on <= 4 aliases, all inheritance graphs on <= 4 interfaces; oracle = plain graph theory.
 
 use super::PropMeta;
 use crate::engine::*;
+use crate::model::run::compile_texts;
+use crate::util::*;
+use serde_json::{json, Value};
 
-pub fn meta(_m: &mut PropMeta) {}
+pub fn meta(m: &mut PropMeta) {
+    m.rule = "ALL directed containment graphs (self-loops allowed) on 1..3 nodes x every struct/enum kind assignment x each of 7 edge routings (direct, optional, sequence element, dictionary key, dictionary value, result success, result failure) applied uniformly, and per edge on 2 nodes; all 2^16 graphs on 4 nodes with kinds and routings assigned by a fixed rotation (thorough: x every uniform routing); nodes spread over one and two files; ALL alias graphs on 4 aliases (each alias targets another alias, a primitive, or Sequence<alias>: 9^4); ALL inheritance graphs on 4 interfaces (each lists any subset of the four, itself included, as bases: 2^16, incl. diamonds); plus ring / complete / layered families with 10 nodes. Oracle (reachability / SCC): E032 is reported iff the containment graph has a cycle; every node on a cycle is named in a reported chain; every reported chain 'A -> B -> A' is a closed walk along real field edges and its notes name real fields; no E032 for acyclic graphs; alias graphs: rejected iff an alias reaches itself, otherwise no error; inheritance graphs: rejected iff an interface reaches itself, acyclic lattices accepted; always a verdict (no crash/hang). non-trivial = the graph has an edge; distinct = distinct rendered programs.";
+    m.explanation = "complete enumeration of small graphs rendered as Slice programs; graph-theoretic oracle";
+    m.quick_bound = "containment: all graphs <= 3 nodes x kinds x 7 routings, all 4-node graphs (rotating kinds/routings); aliases: 9^4; inheritance: 2^16";
+    m.thorough_bound = "as quick, 4-node containment graphs x every uniform routing";
+}
 
-pub fn families(_tier: &str) -> Vec<Box<dyn Family>> {
-    vec![]
+const ROUTINGS: usize = 7;
+fn route(r: usize, t: &str) -> String {
+    match r {
+        0 => t.to_string(),
+        1 => format!("{t}?"),
+        2 => format!("Sequence<{t}>"),
+        3 => format!("Dictionary<{t}, int32>"),
+        4 => format!("Dictionary<int32, {t}>"),
+        5 => format!("Result<{t}, int32>"),
+        6 => format!("Result<int32, {t}?>"),
+        _ => unreachable!(),
+    }
+}
+
+/// reach[i][j] = j reachable from i by a non-empty path
+fn reach(n: usize, adj: &[Vec<bool>]) -> Vec<Vec<bool>> {
+    let mut r: Vec<Vec<bool>> = adj.to_vec();
+    for k in 0..n {
+        for i in 0..n {
+            for j in 0..n {
+                if r[i][k] && r[k][j] {
+                    r[i][j] = true;
+                }
+            }
+        }
+    }
+    r
+}
+
+struct GraphCase {
+    n: usize,
+    adj: Vec<Vec<bool>>,
+    /// kind per node: false = struct, true = enum
+    is_enum: Vec<bool>,
+    /// routing per edge (i,j)
+    routing: Vec<Vec<usize>>,
+    two_files: bool,
+}
+
+impl GraphCase {
+    fn name(i: usize) -> String {
+        format!("N{i}")
+    }
+    fn render(&self) -> Vec<String> {
+        let mut defs = vec![];
+        for i in 0..self.n {
+            let mut members = vec![];
+            for j in 0..self.n {
+                if self.adj[i][j] {
+                    let t = route(self.routing[i][j], &Self::name(j));
+                    if self.is_enum[i] {
+                        members.push(format!("V{j}(f{j}: {t})"));
+                    } else {
+                        members.push(format!("f{j}: {t}"));
+                    }
+                }
+            }
+            if self.is_enum[i] {
+                if members.is_empty() {
+                    members.push("Z".into());
+                }
+                defs.push(format!("enum {} {{ {} }}", Self::name(i), members.join(" ")));
+            } else {
+                defs.push(format!("struct {} {{ {} }}", Self::name(i), members.join(" ")));
+            }
+        }
+        if self.two_files && self.n > 1 {
+            let (a, b): (Vec<_>, Vec<_>) = defs.iter().enumerate().partition(|(i, _)| i % 2 == 0);
+            vec![format!("module G\n{}\n", a.into_iter().map(|x| x.1.clone()).collect::<Vec<_>>().join("\n")), format!("module G\n{}\n", b.into_iter().map(|x| x.1.clone()).collect::<Vec<_>>().join("\n"))]
+        } else {
+            vec![format!("module G\n{}\n", defs.join("\n"))]
+        }
+    }
+
+    fn check(&self, fam: &str) -> CaseOut {
+        let texts = self.render();
+        let mut out = CaseOut::new(hash_str(&texts.join("\u{0}")));
+        out.validated = 1;
+        out.nontrivial = self.adj.iter().any(|r| r.iter().any(|x| *x));
+        let r = reach(self.n, &self.adj);
+        let on_cycle: Vec<bool> = (0..self.n).map(|i| r[i][i]).collect();
+        let cyclic = on_cycle.iter().any(|x| *x);
+        let refs: Vec<&str> = texts.iter().map(|s| s.as_str()).collect();
+        let input = || texts.join("\n--- next file ---\n");
+        match compile_texts(&refs, None) {
+            Err((loc, msg)) => {
+                out.class = "panic".into();
+                out.violate(format!("c05/{fam}/panic@{loc}"), format!("panic at {loc}: {msg}\n--- input ---\n{}", input()));
+            }
+            Ok((_, _, diags)) => {
+                let e032: Vec<_> = diags.iter().filter(|d| d.code == "E032").collect();
+                out.class = format!("cyclic={cyclic} sccnodes={} reports={}", on_cycle.iter().filter(|x| **x).count(), e032.len());
+                if cyclic && e032.is_empty() {
+                    out.violate(format!("c05/{fam}/cycle-not-diagnosed"), format!("the containment graph has a cycle (nodes on cycles: {:?}) but no infinite-size error was reported; diagnostics: {:?}\n--- input ---\n{}", on_cycle, diags.iter().map(|d| &d.code).collect::<Vec<_>>(), input()));
+                }
+                if !cyclic && !e032.is_empty() {
+                    out.violate(format!("c05/{fam}/acyclic-diagnosed"), format!("the containment graph is acyclic but E032 was reported: {}\n--- input ---\n{}", e032[0].message, input()));
+                }
+                // chains
+                let mut named = vec![false; self.n];
+                for d in &e032 {
+                    // message: "type G::N0 illegally references itself: G::N0 -> G::N1 -> G::N0"
+                    let Some((_, chain)) = d.message.split_once(": ") else { continue };
+                    let ids: Vec<usize> = chain.split("->").filter_map(|s| s.trim().rsplit("::").next().and_then(|x| x.strip_prefix('N')).and_then(|x| x.parse().ok())).collect();
+                    if ids.len() >= 2 {
+                        let mut ok = ids.first() == ids.last();
+                        for w in ids.windows(2) {
+                            if w[0] >= self.n || w[1] >= self.n || !self.adj[w[0]][w[1]] {
+                                ok = false;
+                            }
+                        }
+                        if !ok {
+                            out.violate(format!("c05/{fam}/reported-chain-is-not-a-path"), format!("reported chain {chain:?} is not a closed walk along real field edges\n--- input ---\n{}", input()));
+                        }
+                        for i in &ids {
+                            if *i < self.n {
+                                named[*i] = true;
+                            }
+                        }
+                        // notes name real fields: "... contains a field named 'fJ' ..."
+                        for (nmsg, _) in &d.notes {
+                            if let Some(rest) = nmsg.split("field named '").nth(1) {
+                                let fname = rest.split('\'').next().unwrap_or("");
+                                let real = fname.strip_prefix('f').and_then(|x| x.parse::<usize>().ok()).map_or(false, |j| j < self.n && (0..self.n).any(|i| self.adj[i][j]));
+                                if !real {
+                                    out.violate(format!("c05/{fam}/note-names-unknown-field"), format!("note {nmsg:?} names a field that is not part of the program\n--- input ---\n{}", input()));
+                                }
+                            }
+                        }
+                    }
+                }
+                if cyclic && !e032.is_empty() {
+                    for i in 0..self.n {
+                        if on_cycle[i] && !named[i] {
+                            out.violate(format!("c05/{fam}/node-on-cycle-not-named"), format!("type N{i} lies on a cycle but no reported chain names it; reports: {:?}\n--- input ---\n{}", e032.iter().map(|d| &d.message).collect::<Vec<_>>(), input()));
+                            break;
+                        }
+                    }
+                }
+            }
+        }
+        out
+    }
+}
+
+/// All graphs on n nodes x kinds x uniform routings (x one/two files).
+pub struct SmallGraphs {
+    pub n: usize,
+}
+impl SmallGraphs {
+    fn decode(&self, idx: u64) -> GraphCase {
+        let n = self.n;
+        let edges = (n * n) as u32;
+        let g = idx % (1u64 << edges);
+        let rest = idx >> edges;
+        let kinds = rest % (1 << n);
+        let rest = rest >> n;
+        let routing = (rest % ROUTINGS as u64) as usize;
+        let two_files = (rest / ROUTINGS as u64) % 2 == 1;
+        let mut adj = vec![vec![false; n]; n];
+        for i in 0..n {
+            for j in 0..n {
+                adj[i][j] = (g >> (i * n + j)) & 1 == 1;
+            }
+        }
+        GraphCase { n, adj, is_enum: (0..n).map(|i| (kinds >> i) & 1 == 1).collect(), routing: vec![vec![routing; n]; n], two_files }
+    }
+}
+impl Family for SmallGraphs {
+    fn name(&self) -> String {
+        format!("containment/all graphs on {} nodes x kinds x 7 uniform routings x 1-2 files", self.n)
+    }
+    fn len(&self) -> u64 {
+        (1u64 << (self.n * self.n)) * (1 << self.n) * ROUTINGS as u64 * if self.n > 1 { 2 } else { 1 }
+    }
+    fn describe(&self, idx: u64) -> Value {
+        json!({"files": self.decode(idx).render()})
+    }
+    fn run(&self, idx: u64) -> CaseOut {
+        self.decode(idx).check("containment")
+    }
+}
+
+/// 2 nodes, every per-edge routing assignment.
+pub struct PerEdgeRouting;
+impl PerEdgeRouting {
+    fn decode(&self, idx: u64) -> GraphCase {
+        let g = idx % 16;
+        let mut rest = idx / 16;
+        let kinds = rest % 4;
+        rest /= 4;
+        let mut adj = vec![vec![false; 2]; 2];
+        let mut routing = vec![vec![0usize; 2]; 2];
+        for i in 0..2 {
+            for j in 0..2 {
+                adj[i][j] = (g >> (i * 2 + j)) & 1 == 1;
+                routing[i][j] = (rest % ROUTINGS as u64) as usize;
+                rest /= ROUTINGS as u64;
+            }
+        }
+        GraphCase { n: 2, adj, is_enum: vec![kinds & 1 == 1, kinds & 2 == 2], routing, two_files: false }
+    }
+}
+impl Family for PerEdgeRouting {
+    fn name(&self) -> String {
+        "containment/all graphs on 2 nodes x kinds x every per-edge routing assignment".into()
+    }
+    fn len(&self) -> u64 {
+        16 * 4 * (ROUTINGS as u64).pow(4)
+    }
+    fn describe(&self, idx: u64) -> Value {
+        json!({"files": self.decode(idx).render()})
+    }
+    fn run(&self, idx: u64) -> CaseOut {
+        self.decode(idx).check("containment")
+    }
+}
+
+/// All 2^16 graphs on 4 nodes; kinds and routings by rotation (or x every uniform routing).
+pub struct FourNodes {
+    pub all_routings: bool,
+}
+impl FourNodes {
+    fn decode(&self, idx: u64) -> GraphCase {
+        let g = idx % 65536;
+        let rot = idx / 65536;
+        let mut adj = vec![vec![false; 4]; 4];
+        let mut routing = vec![vec![0usize; 4]; 4];
+        for i in 0..4 {
+            for j in 0..4 {
+                adj[i][j] = (g >> (i * 4 + j)) & 1 == 1;
+                routing[i][j] = if self.all_routings { rot as usize } else { ((g as usize) + i * 3 + j) % ROUTINGS };
+            }
+        }
+        GraphCase { n: 4, adj, is_enum: (0..4).map(|i| ((g >> (i + 3)) ^ (g >> (2 * i))) & 1 == 1).collect(), routing, two_files: g % 3 == 0 }
+    }
+}
+impl Family for FourNodes {
+    fn name(&self) -> String {
+        format!("containment/all 65536 graphs on 4 nodes, {}", if self.all_routings { "x every uniform routing" } else { "kinds and per-edge routings by fixed rotation" })
+    }
+    fn len(&self) -> u64 {
+        65536 * if self.all_routings { ROUTINGS as u64 } else { 1 }
+    }
+    fn describe(&self, idx: u64) -> Value {
+        json!({"files": self.decode(idx).render()})
+    }
+    fn run(&self, idx: u64) -> CaseOut {
+        self.decode(idx).check("containment4")
+    }
+}
+
+/// 10-node deterministic families: ring, complete, layered (acyclic and with one back edge).
+pub struct TenNodes;
+impl TenNodes {
+    fn decode(&self, idx: u64) -> GraphCase {
+        let n = 10;
+        let mut adj = vec![vec![false; n]; n];
+        match idx / ROUTINGS as u64 {
+            0 => {
+                for i in 0..n {
+                    adj[i][(i + 1) % n] = true;
+                }
+            }
+            1 => {
+                for i in 0..n {
+                    for j in 0..n {
+                        adj[i][j] = i != j;
+                    }
+                }
+            }
+            2 => {
+                // layered, acyclic: 5 layers of 2
+                for l in 0..4 {
+                    for a in 0..2 {
+                        for b in 0..2 {
+                            adj[l * 2 + a][(l + 1) * 2 + b] = true;
+                        }
+                    }
+                }
+            }
+            3 => {
+                for l in 0..4 {
+                    for a in 0..2 {
+                        for b in 0..2 {
+                            adj[l * 2 + a][(l + 1) * 2 + b] = true;
+                        }
+                    }
+                }
+                adj[9][0] = true;
+            }
+            4 => {
+                // acyclic chain
+                for i in 0..n - 1 {
+                    adj[i][i + 1] = true;
+                }
+            }
+            _ => {
+                // two disjoint rings and a tail
+                for i in 0..3 {
+                    adj[i][(i + 1) % 3] = true;
+                }
+                for i in 3..7 {
+                    adj[i][3 + (i - 3 + 1) % 4] = true;
+                }
+                adj[7][8] = true;
+                adj[8][9] = true;
+                adj[9][0] = true;
+            }
+        }
+        let r = (idx % ROUTINGS as u64) as usize;
+        GraphCase { n, adj, is_enum: (0..n).map(|i| i % 3 == 1).collect(), routing: vec![vec![r; n]; n], two_files: idx % 2 == 0 }
+    }
+}
+impl Family for TenNodes {
+    fn name(&self) -> String {
+        "containment/10-node ring, complete, layered DAG, layered with back edge, chain, two rings x 7 routings".into()
+    }
+    fn len(&self) -> u64 {
+        6 * ROUTINGS as u64
+    }
+    fn hang_secs(&self) -> f64 {
+        60.0
+    }
+    fn describe(&self, idx: u64) -> Value {
+        json!({"files": self.decode(idx).render()})
+    }
+    fn run(&self, idx: u64) -> CaseOut {
+        self.decode(idx).check("containment10")
+    }
+}
+
+/// All alias graphs on 4 aliases.
+pub struct AliasGraphs;
+impl AliasGraphs {
+    fn decode(&self, idx: u64) -> (Vec<String>, Vec<Option<usize>>) {
+        let mut defs = vec![];
+        let mut target = vec![];
+        let mut x = idx % 6561;
+        for i in 0..4 {
+            let c = (x % 9) as usize;
+            x /= 9;
+            let (t, tg) = match c {
+                0..=3 => (format!("A{c}"), Some(c)),
+                4 => ("int32".to_string(), None),
+                _ => (format!("Sequence<A{}>", c - 5), Some(c - 5)),
+            };
+            defs.push(format!("typealias A{i} = {t}"));
+            target.push(tg);
+        }
+        (defs, target)
+    }
+}
+impl Family for AliasGraphs {
+    fn name(&self) -> String {
+        "aliases/all 9^4 alias graphs on 4 aliases (alias, primitive or Sequence<alias> targets), with and without a user".into()
+    }
+    fn len(&self) -> u64 {
+        6561 * 2
+    }
+    fn describe(&self, idx: u64) -> Value {
+        let (d, _) = self.decode(idx);
+        json!({"file": format!("module G\n{}\n{}", d.join("\n"), if idx >= 6561 { "struct U { a: A0 b: Sequence<A3?> }" } else { "" })})
+    }
+    fn run(&self, idx: u64) -> CaseOut {
+        let (defs, target) = self.decode(idx);
+        let with_user = idx >= 6561;
+        let text = format!("module G\n{}\n{}\n", defs.join("\n"), if with_user { "struct U { a: A0 b: Sequence<A3?> }" } else { "" });
+        let mut out = CaseOut::new(hash_str(&text));
+        out.validated = 1;
+        out.nontrivial = target.iter().any(|t| t.is_some());
+        // an alias reaches itself?
+        let mut cyc = vec![false; 4];
+        for i in 0..4 {
+            let mut cur = target[i];
+            let mut steps = 0;
+            while let Some(c) = cur {
+                if c == i {
+                    cyc[i] = true;
+                    break;
+                }
+                steps += 1;
+                if steps > 8 {
+                    break;
+                }
+                cur = target[c];
+            }
+        }
+        let cyclic = cyc.iter().any(|x| *x);
+        match compile_texts(&[&text], None) {
+            Err((loc, msg)) => {
+                out.class = "panic".into();
+                out.violate(format!("c05/aliases/panic@{loc}"), format!("panic at {loc}: {msg}\n--- input ---\n{text}"));
+            }
+            Ok((_, _, diags)) => {
+                let errors: Vec<_> = diags.iter().filter(|d| d.level == "error").collect();
+                out.class = format!("cyclic={cyclic} errors={}", errors.len().min(5));
+                if cyclic && errors.is_empty() {
+                    out.violate("c05/aliases/alias-loop-not-rejected", format!("alias(es) {:?} reach themselves but the program was accepted\n--- input ---\n{text}", cyc));
+                }
+                if !cyclic && !errors.is_empty() {
+                    out.violate(format!("c05/aliases/acyclic-aliases-rejected/{}", errors[0].code), format!("no alias reaches itself but: {} {}\n--- input ---\n{text}", errors[0].code, errors[0].message));
+                }
+                if diags.iter().any(|d| d.code == "E032") {
+                    out.violate("c05/aliases/infinite-size-error-without-containment", format!("E032 reported for a program without any struct/enum containment cycle\n--- input ---\n{text}"));
+                }
+            }
+        }
+        out
+    }
+}
+
+/// All inheritance graphs on 4 interfaces.
+pub struct InheritanceGraphs;
+impl Family for InheritanceGraphs {
+    fn name(&self) -> String {
+        "inheritance/all 2^16 base-list assignments over 4 interfaces (incl. self, diamonds)".into()
+    }
+    fn len(&self) -> u64 {
+        65536
+    }
+    fn describe(&self, idx: u64) -> Value {
+        json!({"file": self.text(idx)})
+    }
+    fn run(&self, idx: u64) -> CaseOut {
+        let text = self.text(idx);
+        let mut out = CaseOut::new(hash_str(&text));
+        out.validated = 1;
+        out.nontrivial = idx != 0;
+        let mut adj = vec![vec![false; 4]; 4];
+        for i in 0..4 {
+            for j in 0..4 {
+                adj[i][j] = (idx >> (i * 4 + j)) & 1 == 1;
+            }
+        }
+        let r = reach(4, &adj);
+        let cyclic = (0..4).any(|i| r[i][i]);
+        match compile_texts(&[&text], None) {
+            Err((loc, msg)) => {
+                out.class = "panic".into();
+                out.violate(format!("c05/inheritance/panic@{loc}"), format!("panic at {loc}: {msg}\n--- input ---\n{text}"));
+            }
+            Ok((_, _, diags)) => {
+                let errors: Vec<_> = diags.iter().filter(|d| d.level == "error").collect();
+                out.class = format!("cyclic={cyclic} errors={}", errors.len().min(5));
+                if cyclic && errors.is_empty() {
+                    out.violate("c05/inheritance/inheritance-loop-not-rejected", format!("an interface inherits from itself but the program was accepted\n--- input ---\n{text}"));
+                }
+                if !cyclic && !errors.is_empty() {
+                    out.violate(format!("c05/inheritance/acyclic-lattice-rejected/{}", errors[0].code), format!("acyclic inheritance lattice rejected: {} {}\n--- input ---\n{text}", errors[0].code, errors[0].message));
+                }
+                if diags.iter().any(|d| d.code == "E032") {
+                    out.violate("c05/inheritance/infinite-size-error-without-containment", format!("E032 reported for a program without any struct/enum\n--- input ---\n{text}"));
+                }
+            }
+        }
+        out
+    }
+}
+impl InheritanceGraphs {
+    fn text(&self, idx: u64) -> String {
+        let mut s = String::from("module G\n");
+        for i in 0..4 {
+            let bases: Vec<String> = (0..4).filter(|j| (idx >> (i * 4 + j)) & 1 == 1).map(|j| format!("I{j}")).collect();
+            // distinct operation names: an inherited operation may not be redeclared
+            s.push_str(&format!("interface I{i}{}{} {{ op{i}() }}\n", if bases.is_empty() { "" } else { " : " }, bases.join(", ")));
+        }
+        s
+    }
+}
+
+pub fn families(tier: &str) -> Vec<Box<dyn Family>> {
+    let quick = tier == "quick";
+    vec![
+        Box::new(SmallGraphs { n: 1 }),
+        Box::new(SmallGraphs { n: 2 }),
+        Box::new(TenNodes),
+        Box::new(AliasGraphs),
+        Box::new(InheritanceGraphs),
+        Box::new(PerEdgeRouting),
+        Box::new(SmallGraphs { n: 3 }),
+        Box::new(FourNodes { all_routings: !quick }),
+    ]
 }
